@@ -104,6 +104,7 @@ def show_result(r):
 
 class PROP(PropCheck):
     id = "C19"
+    uses_cli = True      # one scenario runs the real tool from a directory other than the script's
     theorems = ["C19_failure_by_value", "C19_fs_frame", "C19_fs_frame_write", "C19_queries_are_pure", "C19_create_only_if_absent",
                 "C19_write_requires_existing", "C19_append_appends_displayed_form", "C19_read_returns_contents", "C19_get_put_same",
                 "C19_get_put_other", "C19_remove_spec"]
@@ -253,6 +254,35 @@ class PROP(PropCheck):
         if not getattr(self, "sentinel_ok", True):
             return "a sibling of the working directory was modified"
         return None
+
+    def extra_checks(self, ctx):
+        """relative paths name entries of the directory the tool was started in, wherever the script lives ("the named paths only")"""
+        import subprocess
+        import tempfile
+        d = tempfile.mkdtemp(prefix="aplang-fs-cli-")
+        fails = []
+        try:
+            os.makedirs(os.path.join(d, "sub"))
+            src = ('IMPORT MOD "FS"\nDISPLAY(FILE_CREATE("made.txt"))\nDISPLAY(PATH_EXISTS("made.txt"))\nDISPLAY(PATH_IS_FILE("main.ap"))\n'
+                   'DISPLAY(DIRECTORY_CREATE("newdir"))\n')
+            with open(os.path.join(d, "sub", "main.ap"), "w") as f:
+                f.write(src)
+            try:
+                p = subprocess.run([C.CLI_BIN, os.path.join("sub", "main.ap")], cwd=d, stdin=subprocess.DEVNULL, stdout=subprocess.PIPE,
+                                   stderr=subprocess.PIPE, timeout=60, env=dict(C.ENV, NO_COLOR="1"), preexec_fn=C.limit_memory)
+                out, rc = p.stdout.decode("utf-8", "replace"), p.returncode
+            except subprocess.TimeoutExpired:
+                out, rc = "TIMEOUT", -1
+            tree = sorted(os.path.relpath(os.path.join(r, n), d) for r, ds, fs in os.walk(d) for n in ds + fs)
+            want_tree = ["made.txt", "newdir", "sub", os.path.join("sub", "main.ap")]
+            if rc != 0 or out != "TRUE\nTRUE\nFALSE\nTRUE\n" or tree != sorted(want_tree):
+                fails.append(("a script in a sub-directory, run from its parent: relative FS paths must name entries of the directory the "
+                              "tool was started in; got status %s, output %r, tree %s" % (rc, out, tree),
+                              {"input": src, "how": "mkdir sub; put the program in sub/main.ap; run `aplang sub/main.ap` from the parent",
+                               "implementation": "status %s output %r tree %s" % (rc, out, tree)}))
+        finally:
+            shutil.rmtree(d, ignore_errors=True)
+        return fails
 
     def nontrivial(self, case, impl):
         return case.src.replace(case.meta["root"], "R") if case.meta.get("mutated") else None
